@@ -279,13 +279,17 @@ def _wait(pid, timeout):
         time.sleep(0.002 if time.time() - t0 < 0.2 else 0.02)
 
 
-def interrupted(acc, x, probes, chk, files, scratch, max_hits=2, kind_name="interrupted", child_timeout=60):
+def interrupted(acc, x, probes, chk, files, scratch, max_hits=2, kind_name="interrupted", child_timeout=60, pre=()):
+    """pre: operations completed (uninterrupted) before x in the same process image - a memo that is re-keyed before the work
+    is done only goes wrong when it already holds a value from an EARLIER, different call"""
     hung = []
     rd, wr = os.pipe()
     pid = os.fork()
     if pid == 0:
         os.close(rd)
         try:
+            for p_ in pre:
+                apply(chk, *p_)
             n, _ = _run_interrupted(chk, x, None, files, max_hits)
             os.write(wr, str(n).encode())
         except BaseException:
@@ -318,6 +322,8 @@ def interrupted(acc, x, probes, chk, files, scratch, max_hits=2, kind_name="inte
         if pid == 0:
             code = 0
             try:
+                for p_ in pre:
+                    apply(chk, *p_)
                 _, fired = _run_interrupted(chk, x, at, files, max_hits)
                 rec = {"at": at, "fired": fired, "viol": []}
                 for j, p in enumerate(probes):
@@ -353,7 +359,7 @@ def interrupted(acc, x, probes, chk, files, scratch, max_hits=2, kind_name="inte
                 continue
             seen.add(k2)
             acc.violation(kind_name, {"x": [x[0], x[1]], "at": r["at"], "probes": [[probes[j][0], probes[j][1]]], "files": list(files),
-                                      "max_hits": max_hits}, k2,
+                                      "max_hits": max_hits, "pre": [[p_[0], p_[1]] for p_ in pre]}, k2,
                           f"correct on a fresh process image, wrong after an earlier call ({x[0]}) was interrupted by an asynchronous exception at its "
                           f"line event {r['at']} of {npts}: {desc}")
     acc.evaluations += npts * (1 + len(probes))
@@ -365,6 +371,8 @@ def interrupted(acc, x, probes, chk, files, scratch, max_hits=2, kind_name="inte
 
 
 def replay_interrupted(chk, case):
+    for p_ in case.get("pre") or []:
+        apply(chk, *p_)
     _run_interrupted(chk, tuple(case["x"]), case["at"], tuple(case["files"]), case["max_hits"])
     out = []
     for p in case["probes"]:
